@@ -2,6 +2,7 @@ package main
 
 import (
 	"bytes"
+	"fmt"
 	"go/ast"
 	"go/printer"
 	"go/token"
@@ -132,6 +133,54 @@ func ruleShufflePerm(c *Ctx) {
 			c.bad("innerShuffleList.mirror", loops[1].Pos(), "the two pair loops (left of the pivot / right of the pivot) no longer have the same body, condition and step: pairs on one side of the pivot are treated differently from the other")
 		}
 	}
+	// (c') the hash-source prelude of each pair loop refers only to that loop's own starting position
+	if len(loops) == 2 {
+		var prevEnd token.Pos = fd.Body.Pos()
+		for li, lp := range loops {
+			init, _ := lp.Init.(*ast.AssignStmt)
+			key := fmt.Sprintf("innerShuffleList.prelude%d", li+1)
+			if init == nil || len(init.Rhs) != 2 {
+				c.unm(key, lp.Pos(), "pair loop init not of the form i, j := a, b")
+				continue
+			}
+			j0, ok := ast.Unparen(init.Rhs[1]).(*ast.Ident)
+			if !ok {
+				c.unm(key, lp.Pos(), "start position of j is not a variable")
+				continue
+			}
+			other := map[string]bool{"pivot": true, "end": true}
+			delete(other, j0.Name)
+			var wrong *ast.Ident
+			// statements of the enclosing block between the previous loop and this one
+			parents := parentMap(fd.Body)
+			blk, _ := parents[ast.Node(lp)].(*ast.BlockStmt)
+			if blk != nil {
+				for _, st := range blk.List {
+					if st.Pos() <= prevEnd || st.Pos() >= lp.Pos() {
+						continue
+					}
+					// definitions of the position variables themselves (mirror := ..., end := ..., pivot := ...) are exempt
+					if as, ok := st.(*ast.AssignStmt); ok && len(as.Lhs) == 1 {
+						if id, ok := as.Lhs[0].(*ast.Ident); ok && (id.Name == "mirror" || id.Name == "end" || id.Name == "pivot" || id.Name == "h") {
+							continue
+						}
+					}
+					ast.Inspect(st, func(m ast.Node) bool {
+						if id, ok := m.(*ast.Ident); ok && other[id.Name] && wrong == nil {
+							wrong = id
+						}
+						return true
+					})
+				}
+			}
+			if wrong != nil {
+				c.bad(key, wrong.Pos(), "the hash-source set-up before the pair loop that starts at j = %s refers to %s, the other segment's position: the first swap bits of this segment come from the wrong hash block", j0.Name, wrong.Name)
+			} else {
+				c.ok(key, lp.Pos(), "set-up before the loop refers to its own start position %s only", j0.Name)
+			}
+			prevEnd = lp.End()
+		}
+	}
 	// (d) round direction in both inner functions
 	for _, name := range []string{"innerShuffleList", "innerPermuteIndex"} {
 		pk2, f2 := c.P.mustFunc("eth2/beacon/common", name)
@@ -142,7 +191,7 @@ func ruleShufflePerm(c *Ctx) {
 		startOK := strings.Contains(flat, "if !dir {") && strings.Contains(flat, "r = rounds - 1")
 		fwdOK := strings.Contains(flat, "r++ if r == rounds { break }")
 		bwdOK := strings.Contains(flat, "if r == 0 { break }") && strings.Contains(flat, "r--")
-		zeroOK := strings.Contains(flat, "rounds == 0")
+		zeroOK := roundsZeroReturns(f2)
 		switch {
 		case !strings.Contains(flat, "if dir {") && !strings.Contains(flat, "if !dir {"):
 			c.unm(key, f2.Pos(), "direction handling written in an unrecognised form")
@@ -256,6 +305,37 @@ func ruleShufflePerm(c *Ctx) {
 	} else {
 		c.bad("NewShufflingEpoch.copy", f3.Pos(), "Shuffling is not initialised as a position-by-position copy of ActiveIndices")
 	}
+}
+
+// roundsZeroReturns: some `if` whose condition holds whenever rounds == 0 (the bare test or an ||-disjunct) returns at once.
+func roundsZeroReturns(fd *ast.FuncDecl) bool {
+	found := false
+	ast.Inspect(fd.Body, func(n ast.Node) bool {
+		ifs, ok := n.(*ast.IfStmt)
+		if !ok || found {
+			return true
+		}
+		var disj func(e ast.Expr) bool
+		disj = func(e ast.Expr) bool {
+			e = ast.Unparen(e)
+			if be, ok := e.(*ast.BinaryExpr); ok {
+				if be.Op == token.LOR {
+					return disj(be.X) || disj(be.Y)
+				}
+				if be.Op == token.EQL && types.ExprString(be.X) == "rounds" && types.ExprString(be.Y) == "0" {
+					return true
+				}
+			}
+			return false
+		}
+		if disj(ifs.Cond) && len(ifs.Body.List) > 0 {
+			if _, isRet := ifs.Body.List[len(ifs.Body.List)-1].(*ast.ReturnStmt); isRet {
+				found = true
+			}
+		}
+		return true
+	})
+	return found
 }
 
 // exprPoly normalises an integer expression over local names: identifiers resolve through single-definition locals,
